@@ -456,6 +456,17 @@ func (it *interp) rule(r *gspec.Rule, off int) (any, int, bool) {
 	return v, end, ok
 }
 
+// inLRRule reports whether the named rule is left-recursive (an LR rule or the
+// intermediate rule of an indirect cycle).
+func (it *interp) inLRRule(name string) bool {
+	for _, r := range it.g.Rules {
+		if r.LR != nil && (r.Name == name || r.LR.Via == name) {
+			return true
+		}
+	}
+	return false
+}
+
 // lrRule evaluates A <- A t1 / ... / A tn / b1 / ... / bm by its denotation: ordered
 // choice of the bases, then a greedy loop of the ordered choice of the tails with the
 // recursive reference bound to the result so far.
@@ -628,7 +639,9 @@ func (it *interp) eval(e *gspec.Expr, off int, env map[string]any) (any, int, bo
 		if it.labelSeen == nil {
 			it.labelSeen = map[[2]int]bool{}
 		}
-		if it.labelSeen[[2]int{e.NID, off}] {
+		if it.labelSeen[[2]int{e.NID, off}] && !it.inLRRule(e.RuleOf) {
+			// (inside left-recursive rules pigeon disables the expression memo, so the recorded
+			// finding about memo hits on labelled expressions cannot occur there)
 			it.st.LabelReeval++
 		}
 		it.labelSeen[[2]int{e.NID, off}] = true
